@@ -125,7 +125,7 @@ def gen_timing(rng, mode, hostile, tmax, chronological, tshift=0, integer_times=
             bl = rng.choice(["500", "333.33", "1000", "461.538461538462", "6", "60000", "300.5"])
         else:
             bl = rng.choice(["-100", "-50", "-200", "-133.333333333333", "-1000", "-10", "-66.6666666666667", "-125"])
-        fields = [repr(t) if isinstance(t, float) else str(t), bl, rng.choice(["4", "3", "7", "0"]), str(rng.randint(0, 3)), str(rng.choice([0, 0, 1, 2, 5])),
+        fields = [repr(t) if isinstance(t, float) else str(t), bl, rng.choice(["4", "3", "7", "0"]), str(rng.randint(0, 3)), str(rng.choice([0, 0, 1, 2, 5, -1, -3])),
                   str(rng.choice([100, 60, 0, 5, 120])), "1" if timing else "0", str(rng.choice([0, 1, 8, 9, 0]))]
         k = 8 if rng.random() > 0.15 else rng.randint(2, 7)
         L.append(",".join(fields[:k]))
@@ -152,7 +152,7 @@ def gen_objects(rng, mode, hostile, chronological, tshift=0, integer_times=False
         x, y = rng.randint(0, 512), rng.randint(0, 384)
         nc = rng.choice([0, 0, 4, 4 + 16 * rng.randint(0, 7)])
         snd = rng.choice([0, 2, 4, 8, 6, 14, 1])
-        extra = rng.choice(["0:0:0:0:", "1:2:0:0:", "2:0:0:50:", "0:3:1:70:hit.wav", "", "0:0:3:0:", "1:0:2:0:", "0:2:0:35:", "3:3:7:0:"])
+        extra = rng.choice(["0:0:0:0:", "1:2:0:0:", "2:0:0:50:", "0:3:1:70:hit.wav", "", "0:0:3:0:", "1:0:2:0:", "0:2:0:35:", "3:3:7:0:", "2:0:-1:60:", "0:0:-4:0:"])
         kind = rng.choice("ccssnh" if mode == 3 else "cccssn")
         tt = repr(t + tshift) if isinstance(t, float) else str(t + tshift)
         if kind == "c":
